@@ -8,7 +8,7 @@ GB = os.path.join(cast.REPO, "src", "libawkward", "builder", "GrowableBuffer.cpp
 TRUSTED = [
     "GrowableBuffer units: set_reserved's memcpy/malloc are external (its contract -- reserved_ >= requested, the first length_ items preserved, buffer possibly reallocated -- is assumed at call sites; its scalar postconditions are proved on its own body)",
     "GrowableBuffer units are extracted for GrowableBuffer<int64_t>; the other element types instantiate the same template text",
-    "builder tree rewriting (Unknown->Int64->Float64, Option, Union, Record), builder_fromiter and LayoutBuilder are object graphs with virtual dispatch: not covered",
+    "builder tree rewriting (Unknown->Int64->Float64, Union, Record), builder_fromiter and LayoutBuilder are object graphs with virtual dispatch: not covered",
 ]
 
 
@@ -102,8 +102,180 @@ def run_discipline_units():
     return out
 
 
+# --------------------------------------------------------------------------------------------- OptionBuilder
+LEAF_OPS = ("boolean", "integer", "real", "complex", "datetime", "timedelta", "string")
+BEGIN_OPS = ("beginlist", "begintuple", "beginrecord")
+END_OPS = ("endlist", "endtuple", "endrecord")
+OPTION_TRUSTED = [
+    "OptionBuilder units: the nested builder is seen through the Builder interface only -- assumed contract: a call "
+    "changes length() by 0 or +1; a leaf value given to an inactive builder completes exactly one element and leaves it "
+    "inactive; begin_* on an inactive builder completes nothing and makes it active; on an active builder only end_* can "
+    "complete an element; maybeupdate() keeps length() and "
+    "active() (it swaps in the rewritten builder the call returned)",
+]
+
+
+TRUSTED = TRUSTED + OPTION_TRUSTED
+
+
+class _OptionUnit(munit.MUnit):
+    """OptionBuilder method over ghost state: clen / cactive (the nested builder's length() and active()),
+    ilen / ilast (length of index_ and the value appended last)"""
+
+    def __init__(self, *a, **kw):
+        super().__init__(*a, **kw)
+        self.ev.ev_throw = self.ev_throw
+
+    def ev_throw(self, e, st):
+        # a malformed call sequence raises: the path ends here, nothing is required of index_
+        import z3
+        from .sym import Val, IV
+        self.exits.append(("throw", "throw", st.fork()))
+        self.ret_states.append((["throw"], st.fork()))
+        st.assume(z3.BoolVal(False))
+        return Val(IV(0), "opaque")
+
+    def ev_mcall(self, e, st):
+        _, obj, name, args, ty = e
+        from .sym import Val, IV, to_int
+        import z3
+        inner = obj
+        if inner and inner[0] == "mcall" and inner[2] == "get":
+            inner = inner[1]
+        target = inner[1] if inner and inner[0] == "v" else None
+        if target in ("index_", "offsets_") and name == "append":
+            v = self.ev.ev(args[0], st)
+            st.vars["ilast"] = Val(to_int(v), "int")
+            st.vars["ilen"] = Val(to_int(st.vars["ilen"]) + 1, "int")
+            return Val(IV(0), "opaque")
+        if target == "content_":
+            if name == "get":
+                return Val(IV(0), "opaque")
+            if name == "length":
+                return st.vars["clen"]
+            if name == "active":
+                return st.vars["cactive"]
+            for a in args:
+                try:
+                    self.ev.ev(a, st)
+                except Exception:
+                    pass
+            old_len, old_act = to_int(st.vars["clen"]), st.vars["cactive"].t
+            self.ext_counter += 1
+            new_len = z3.Int("clen!%d" % self.ext_counter)
+            new_act = z3.Bool("cactive!%d" % self.ext_counter)
+            st.assume(z3.Or(new_len == old_len, new_len == old_len + 1))
+            if name in LEAF_OPS or name == "null":
+                st.assume(z3.Implies(z3.Not(old_act), z3.And(new_len == old_len + 1, z3.Not(new_act))))
+            if name in BEGIN_OPS:
+                st.assume(z3.Implies(z3.Not(old_act), z3.And(new_len == old_len, new_act)))
+            if name not in END_OPS:
+                # inside an open list / tuple / record nothing is completed at this level except by its end_*
+                st.assume(z3.Implies(old_act, z3.And(new_len == old_len, new_act)))
+            st.vars["clen"] = Val(new_len, "int")
+            st.vars["cactive"] = Val(new_act, "bool")
+            return Val(IV(0), "opaque")
+        return super().ev_mcall(e, st)
+
+
+def run_option_units():
+    """C14: OptionBuilder keeps one index entry per element completed at its level: a call appends exactly as many
+    entries as the nested builder's length grew by (its previous length as the entry), null() on an inactive content
+    appends one -1 and leaves the content alone; nothing else touches index_"""
+    out = []
+    path = os.path.join(cast.REPO, "src", "libawkward", "builder", "OptionBuilder.cpp")
+    consts = dict(cast.global_constants())
+    try:
+        r = cast.extract_file(path, filt="OptionBuilder", tolerant=True)
+    except Exception as ex:
+        return [{"unit": "OptionBuilder", "obligations": [], "errors": ["extraction failed: %r" % (ex,)]}]
+    fs = {}
+    for f in r["functions"]:
+        fs.setdefault(f["name"], []).append(f)
+    for name in ("null",) + LEAF_OPS + BEGIN_OPS + END_OPS + ("field", "index"):
+        t0 = time.time()
+        res = {"unit": "OptionBuilder::" + name, "obligations": [], "errors": []}
+        ms = [f for f in fs.get(name, []) if f.get("body") is not None]
+        if not ms:
+            res["errors"].append("method not found / not translatable")
+            out.append(res)
+            continue
+        f = ms[0]
+        variables = [("clen", "i64"), ("cactive", "bool"), ("ilen", "i64"), ("ilast", "i64")] + \
+                    [(pn, "i64" if (pt.startswith("r:") or pt.startswith("x:") or pt.startswith("p:")) else pt) for pn, pt in f["params"]]
+        pre = ["clen >= 0", "ilen >= 0"]
+        if name == "null":
+            post = ["implies(not old(cactive), ilen == old(ilen) + 1 and ilast == 0 - 1 and clen == old(clen))",
+                    "implies(old(cactive), ilen - old(ilen) == clen - old(clen))"]
+        else:
+            post = ["ilen - old(ilen) == clen - old(clen)", "implies(ilen > old(ilen), ilast == old(clen))"]
+        calls = {"this.maybeupdate": {"requires": [], "havoc": [], "ensures": []},
+                 "this.shared_from_this": {"requires": [], "havoc": [], "ensures": []}}
+        c = vcgen.Contract(name, requires=pre, nonneg=[], calls=calls)
+        try:
+            def mk(act):
+                return _OptionUnit(name, copy.deepcopy(f["body"]), variables, c, consts, {}, {},
+                                   ret="i64", on_exit={"ret": post, "fall": post, "throw": []}, active=act)
+            u, _ = vcgen.houdini(mk, timeout_ms=3000)
+            forth._finish(res, u, t0)
+        except Exception:
+            import traceback
+            res["errors"].append("crash: " + traceback.format_exc()[-1200:])
+        out.append(res)
+    return out
+
+
+def run_list_units():
+    """C14: ListBuilder appends to offsets_ exactly when a list opened at its own level is closed -- end_list while the
+    content is inactive -- and the entry is the content's length at that moment; every other call leaves offsets_ and
+    begun_ alone (begin_list on a builder that is not begun sets begun_)"""
+    out = []
+    path = os.path.join(cast.REPO, "src", "libawkward", "builder", "ListBuilder.cpp")
+    consts = dict(cast.global_constants())
+    try:
+        r = cast.extract_file(path, filt="ListBuilder", tolerant=True)
+    except Exception as ex:
+        return [{"unit": "ListBuilder", "obligations": [], "errors": ["extraction failed: %r" % (ex,)]}]
+    fs = {}
+    for f in r["functions"]:
+        fs.setdefault(f["name"], []).append(f)
+    for name in ("null",) + LEAF_OPS + BEGIN_OPS + END_OPS + ("field", "index"):
+        t0 = time.time()
+        res = {"unit": "ListBuilder::" + name, "obligations": [], "errors": []}
+        ms = [f for f in fs.get(name, []) if f.get("body") is not None]
+        if not ms:
+            res["errors"].append("method not found / not translatable")
+            out.append(res)
+            continue
+        f = ms[0]
+        variables = [("clen", "i64"), ("cactive", "bool"), ("ilen", "i64"), ("ilast", "i64"), ("begun_", "bool")] + \
+                    [(pn, "i64" if (pt.startswith("r:") or pt.startswith("x:") or pt.startswith("p:")) else pt) for pn, pt in f["params"]]
+        pre = ["clen >= 0", "ilen >= 1"]
+        if name == "endlist":
+            post = ["implies(old(begun_) and not old(cactive), ilen == old(ilen) + 1 and ilast == old(clen) and not begun_ and clen == old(clen))",
+                    "implies(old(begun_) and old(cactive), ilen == old(ilen) and begun_)"]
+        elif name == "beginlist":
+            post = ["ilen == old(ilen)", "implies(not old(begun_), begun_ and clen == old(clen))", "implies(old(begun_), begun_)"]
+        else:
+            post = ["ilen == old(ilen)", "begun_ == old(begun_)"]
+        calls = {"this.maybeupdate": {"requires": [], "havoc": [], "ensures": []},
+                 "this.shared_from_this": {"requires": [], "havoc": [], "ensures": []}}
+        c = vcgen.Contract(name, requires=pre, nonneg=[], calls=calls)
+        try:
+            def mk(act):
+                return _OptionUnit(name, copy.deepcopy(f["body"]), variables, c, consts, {}, {},
+                                   ret="i64", on_exit={"ret": post, "fall": post, "throw": []}, active=act)
+            u, _ = vcgen.houdini(mk, timeout_ms=3000)
+            forth._finish(res, u, t0)
+        except Exception:
+            import traceback
+            res["errors"].append("crash: " + traceback.format_exc()[-1200:])
+        out.append(res)
+    return out
+
+
 def engine(pid, tier, seed, known):
-    res = run_units() + run_discipline_units()
+    res = run_units() + run_discipline_units() + run_option_units() + run_list_units()
     out = {"obligations": [], "functions": {}, "errors": [], "notes": [], "bounded": [], "coverage": {"builder_units": len(res)}}
     for r in res:
         out["functions"][r["unit"]] = {"obligations": len(r["obligations"]), "exits": r.get("exits")}
